@@ -42,8 +42,12 @@ def gen(rng, tier):
         if kind != "with-missing" and rng.random() < 0.35:
             # as a term of its own: in a product the ten digits the offset costs would exceed the comparison tolerance
             fml += rng.choice([" + scale(t)", " + standardize(t)", " + center(t)"])
-        cases.append({"formula": fml, "frame": fr, "na": "drop", "perm": perm,
-                      "index": idx_kind, "colperm": colperm, "kind": kind})
+        if rng.random() < 0.05:
+            # a formula that mentions NO column of the frame: every column is then an unused one
+            fml = "1"
+            kind = "no-column-used"
+        cases.append({"formula": fml, "frame": fr, "na": rng.choice(["drop", "drop", "error"]) if fml == "1" else "drop",
+                      "perm": perm, "index": idx_kind, "colperm": colperm, "kind": kind})
     return cases
 
 
